@@ -119,11 +119,225 @@ def eval_const_atom(prog, f, atom, exprs, value):
     if cc is not None and cc[0] in exprs:
         return (value in cc[2]) == (cc[1] == 'in')
     if _reads_any(atom, exprs):
+        # not a plain comparison: evaluate the expression with `value` in the
+        # place of the reads (`(x or DONE) != DONE`, `not x == C`, ..)
+        v = value_under(prog, f, atom, {x: value for x in exprs})
+        if v is not _NOVAL:
+            return bool(v)
         raise AnalysisError(
             'UNRECOGNISED-IDIOM %s: the test `%s` reads %s but is not a '
             'comparison with constants' % (f.where, short(atom, 60),
                                            sorted(exprs)))
     return None
+
+
+def eval_keys_atom(prog, f, atom, scope, keys):
+    """truth of `atom` when the entries `keys` ({key: value}) of the task /
+    directive have these values - wherever they are read inside `scope`: in
+    the atom itself, through a local computed from the reads (a hoisted flag,
+    a test kept in a name, a name assigned in both arms of a test on them), or
+    inside a one-line helper method the atom calls.  None when the atom does
+    not speak about them."""
+    env = {}
+    for k, v in keys.items():
+        for x in key_exprs(scope, k):
+            env[x] = v
+    if unparse(atom) in env:
+        return bool(env[unparse(atom)])
+    cc = const_compare(prog, f.module, atom, f.cls)
+    if cc is not None and cc[0] in env:
+        return (env[cc[0]] in cc[2]) == (cc[1] == 'in')
+    derived = derived_values(prog, f, env)
+    speaks = _reads_any(atom, set(env) | set(derived)) or any(
+        helper_return(prog, f, c, keys) is not None
+        for c in walk(atom) if isinstance(c, ast.Call))
+    if not speaks:
+        return None
+    v = value_under(prog, f, atom, env, derived, keys)
+    if v is _NOVAL:
+        raise AnalysisError(
+            'UNRECOGNISED-IDIOM %s: the test `%s` depends on %s but cannot be '
+            'evaluated for given values of them' % (f.where, short(atom, 60),
+                                                    sorted(keys)))
+    return bool(v)
+
+
+def helper_return(prog, f, call, keys):
+    """(helper, returned expression, env) if `call` is a call of an own method
+    (or nested / module function) whose body is one `return <expr>` which
+    reads one of the entries `keys`; None otherwise"""
+    if not keys or not (call_name(call).startswith('self.') or
+                        isinstance(call.func, ast.Name)):
+        return None
+    h = prog.resolve_call(f, call)
+    if h is None or h is f:
+        return None
+    body = [st for st in h.node.body
+            if not (isinstance(st, ast.Expr) and
+                    isinstance(st.value, ast.Constant))]
+    if len(body) != 1 or not isinstance(body[0], ast.Return) or \
+            body[0].value is None:
+        return None
+    env = {}
+    for k, v in keys.items():
+        for x in key_exprs(h.node, k):
+            env[x] = v
+    if not env:
+        return None
+    return h, body[0].value, env
+
+
+_NOVAL = object()
+_DERIVED = {}
+
+
+def value_under(prog, f, e, env, derived=None, keys=None):
+    """the value of expression `e` when every expression in `env` (unparse
+    form -> value) has its value and everything else folds to a constant;
+    _NOVAL otherwise.  and / or have Python's value semantics (`x or C` is x
+    if x is true)"""
+    rec = lambda x: value_under(prog, f, x, env, derived, keys)  # noqa: E731
+    if unparse(e) in env:
+        return env[unparse(e)]
+    if isinstance(e, ast.Constant):
+        return e.value
+    if isinstance(e, ast.Name) and derived and e.id in derived:
+        return derived[e.id][0]
+    if isinstance(e, ast.BoolOp):
+        last = _NOVAL
+        for sub in e.values:
+            last = rec(sub)
+            if last is _NOVAL:
+                return _NOVAL
+            if isinstance(e.op, ast.Or) and last:
+                return last
+            if isinstance(e.op, ast.And) and not last:
+                return last
+        return last
+    if isinstance(e, ast.UnaryOp) and isinstance(e.op, ast.Not):
+        v = rec(e.operand)
+        return _NOVAL if v is _NOVAL else (not v)
+    if isinstance(e, ast.IfExp):
+        t = rec(e.test)
+        if t is _NOVAL:
+            return _NOVAL
+        return rec(e.body if t else e.orelse)
+    if isinstance(e, ast.Call) and isinstance(e.func, ast.Name) and \
+            e.func.id == 'bool' and len(e.args) == 1 and not e.keywords:
+        v = rec(e.args[0])
+        return _NOVAL if v is _NOVAL else bool(v)
+    if isinstance(e, ast.Call) and keys:
+        hr = helper_return(prog, f, e, keys)
+        if hr is not None:
+            return value_under(prog, hr[0], hr[1], hr[2], None, None)
+        return _NOVAL
+    if isinstance(e, ast.Compare) and len(e.ops) == 1:
+        a = rec(e.left)
+        b = rec(e.comparators[0])
+        if a is _NOVAL or b is _NOVAL:
+            return _NOVAL
+        op = e.ops[0]
+        try:
+            if isinstance(op, ast.Eq):
+                return a == b
+            if isinstance(op, ast.NotEq):
+                return a != b
+            if isinstance(op, ast.In):
+                return a in b
+            if isinstance(op, ast.NotIn):
+                return a not in b
+            if isinstance(op, ast.Is) and (a is None or b is None):
+                return a is b
+            if isinstance(op, ast.IsNot) and (a is None or b is None):
+                return a is not b
+        except TypeError:
+            return _NOVAL
+        return _NOVAL
+    if isinstance(e, (ast.Name, ast.Attribute, ast.List, ast.Tuple, ast.Set)):
+        if isinstance(e, ast.Name) and (e.id in f.params or any(
+                isinstance(n, ast.Name) and n.id == e.id and
+                isinstance(n.ctx, ast.Store) for n in walk(f.node))):
+            return _NOVAL                      # a local, not a module constant
+        v = prog.fold(f.module, e, f.cls)
+        return _NOVAL if v is UNKNOWN else v
+    return _NOVAL
+
+
+def derived_values(prog, f, env):
+    """{name: (value | _NOVAL, {expressions of env it depends on})} of the
+    locals of f (plain assignments only, no parameters) whose value is
+    computed from the reads in `env`: `flag = bool(<read>)`, `skip = <read> !=
+    C`, and names assigned in several places of which - under env - exactly
+    one is not excluded by the tests it is control dependent on"""
+    key = (id(f.node), tuple(sorted((k, repr(v)) for k, v in env.items())))
+    hit = _DERIVED.get(key)
+    if hit is not None and hit[0] is f.node:
+        return hit[1]
+    binds = _name_defs(f.node)
+    cands = {n: [v for _, v in vs] for n, vs in binds.items()
+             if n not in f.params and n not in env and
+             all(k == 'assign' for k, _ in vs)}
+    out = {}
+    g = smap = None
+    for _round in range(4):
+        changed = False
+        for n in sorted(cands):
+            if n in out:
+                continue
+            vals = cands[n]
+            known = set(env) | set(out)
+            if not any(_reads_any(v, known) for v in vals):
+                continue
+            dep = set()
+            for v in vals:
+                for x in walk(v):
+                    if isinstance(x, (ast.Name, ast.Subscript, ast.Call)):
+                        u = unparse(x)
+                        if u in env:
+                            dep.add(u)
+                        elif isinstance(x, ast.Name) and x.id in out:
+                            dep |= out[x.id][1]
+            changed = True
+            if len(vals) == 1:
+                out[n] = (value_under(prog, f, vals[0], env, out), dep)
+                continue
+            if g is None:
+                g = cfg_of(f)
+                smap = I.stmt_node_map(g)
+            got, bad = [], False
+            for v in vals:
+                node = smap.get(id(v))
+                if node is None:
+                    bad = True
+                    break
+                excluded = undetermined = False
+                for tid, lab in guards(g, node.id):
+                    t = g.nodes[tid].ast
+                    for x in walk(t):
+                        if isinstance(x, (ast.Name, ast.Subscript, ast.Call)):
+                            u = unparse(x)
+                            if u in env:
+                                dep.add(u)
+                    tv = value_under(prog, f, t, env, out)
+                    if tv is _NOVAL:
+                        undetermined = True
+                    elif bool(tv) != (lab == 'T'):
+                        excluded = True
+                if excluded:
+                    continue
+                if undetermined:
+                    bad = True
+                    break
+                got.append(value_under(prog, f, v, env, out))
+            if bad or not got or any(x is _NOVAL for x in got) or \
+                    any(x != got[0] for x in got[1:]):
+                out[n] = (_NOVAL, dep)
+            else:
+                out[n] = (got[0], dep)
+        if not changed:
+            break
+    _DERIVED[key] = (f.node, out)       # (keeps the node: its id stays unique)
+    return out
 
 
 def pruned_edges(g, evaluate):
@@ -2328,12 +2542,9 @@ def r11_7(prog, rep, rid='R11.7'):
 
         def reach(state, on_error):
             def ev(atom):
-                v = eval_const_atom(prog, f, atom, ts, state)
-                if v is not None:
-                    return v
-                if soe:
-                    return eval_const_atom(prog, f, atom, soe, on_error)
-                return None
+                return eval_keys_atom(prog, f, atom, scope,
+                                      {'target_state': state,
+                                       'stage_on_error': on_error})
             par = feasible(g, loop_start(g, outer), pruned_edges(g, ev),
                            within=body)
             return [n for n in s.appends if n.id in par], par
@@ -4287,6 +4498,328 @@ def r11_14(prog, rep, rid='R11.14'):
 
 # ------------------------------------------------------------------------------
 #
+# ------------------------------------------------------------------------------
+# R11.15  a key which only the task *description* carries is read from the
+#         description, not from the task dict next to it
+#
+# A task dict (Task.as_dict plus what the components store on it) and the
+# description it carries under 'description' are two containers with different
+# key sets.  An attribute of TaskDescription which nobody ever stores on a task
+# dict (`stage_on_error`, ..) exists only in the description: `task.get(k)`
+# yields the default for every task, whatever the application asked for.  The
+# container of a read is decided by its access chain (aliases followed): it is
+# the task dict if the same object is also asked for its 'description'.
+#
+TD = ('task_description.py', 'TaskDescription')
+TASK = ('task.py', 'Task')
+
+
+def _const_key_of(prog, module, node):
+    """key of X['k'] / X.get('k', ..) / X.setdefault('k', ..) (the key may be
+    a module constant) and the container expression; (None, None) otherwise"""
+    if isinstance(node, ast.Subscript):
+        k, cont = node.slice, node.value
+    elif isinstance(node, ast.Call) and isinstance(node.func, ast.Attribute) \
+            and node.func.attr in ('get', 'setdefault', 'pop') and node.args:
+        k, cont = node.args[0], node.func.value
+    else:
+        return None, None
+    if isinstance(k, ast.Constant):
+        v = k.value
+    elif isinstance(k, (ast.Name, ast.Attribute)):
+        v = prog.fold(module, k)
+    else:
+        return None, None
+    return (v, cont) if isinstance(v, str) else (None, None)
+
+
+def description_keys(prog):
+    K = prog.cls(*TD)
+    sch = K.consts.get('_schema')
+    if not isinstance(sch, ast.Dict):
+        raise AnalysisError('UNRECOGNISED-IDIOM %s: _schema is no dict literal'
+                            % K.where)
+    out = set()
+    for k in sch.keys:
+        v = prog.fold(K.module, k, K) if k is not None else UNKNOWN
+        if not isinstance(v, str):
+            raise AnalysisError('UNRECOGNISED-IDIOM %s: schema key `%s`'
+                                % (K.where, short(k, 30)))
+        out.add(v)
+    return out
+
+
+def access_path(prog, f, expr, defs, depth=0):
+    """(root name, [constant keys]) of an access chain, names which are bound
+    exactly once to another chain followed; (None, []) if the chain does not
+    start at a name"""
+    segs = []
+    e = expr
+    while True:
+        k, cont = _const_key_of(prog, f.module, e)
+        if k is not None and not (isinstance(e, ast.Call) and
+                                  e.func.attr != 'get'):
+            segs.append(k)
+            e = cont
+        elif isinstance(e, ast.Subscript):
+            e = e.value                       # an index selects an element
+        elif isinstance(e, ast.BoolOp) and isinstance(e.op, ast.Or) and \
+                len(e.values) == 2 and isinstance(e.values[1], (
+                    ast.Dict, ast.Call, ast.Constant, ast.List)):
+            e = e.values[0]                   # `x or {}`
+        else:
+            break
+    segs.reverse()
+    if not isinstance(e, ast.Name):
+        return None, []
+    vals = defs.get(e.id, [])
+    if len(vals) == 1 and vals[0][0] == 'assign' and depth < 6 and \
+            e.id not in f.params:
+        root, pre = access_path(prog, f, vals[0][1], defs, depth + 1)
+        if root is not None and (pre or isinstance(vals[0][1], ast.Name)):
+            return root, pre + segs
+    return e.id, segs
+
+
+def _name_defs(fnode):
+    """{name: [(kind, value)]}: every binding of a plain name in the function
+    (kind 'assign' for `name = value`, 'other' for loops, with, augmented ..)"""
+    out = {}
+    for n in walk(fnode):
+        if isinstance(n, ast.Assign):
+            for t in n.targets:
+                if isinstance(t, ast.Name):
+                    out.setdefault(t.id, []).append(('assign', n.value))
+                else:
+                    for x in stores_in_target(t):
+                        out.setdefault(x, []).append(('other', n.value))
+        elif isinstance(n, (ast.AugAssign, ast.AnnAssign)):
+            for x in stores_in_target(n.target):
+                out.setdefault(x, []).append(('other', n.value))
+        elif isinstance(n, (ast.For, ast.comprehension)):
+            for x in stores_in_target(n.target):
+                out.setdefault(x, []).append(('other', n.iter))
+        elif isinstance(n, ast.With):
+            for it in n.items:
+                if it.optional_vars is not None:
+                    for x in stores_in_target(it.optional_vars):
+                        out.setdefault(x, []).append(('other', it.context_expr))
+        elif isinstance(n, ast.NamedExpr) and isinstance(n.target, ast.Name):
+            out.setdefault(n.target.id, []).append(('other', n.value))
+    return out
+
+
+def task_level_keys(prog):
+    """keys which some code of the package puts on a dict that is not (for
+    sure) a description: Task.as_dict, dict literals which carry a
+    'description', `X['k'] = ..` / X.setdefault('k', ..) / X.update({'k': ..})
+    whose container chain does not pass 'description'.  A superset of the keys
+    of task dicts: a key outside of it is never found on one."""
+    out = set()
+    for m in prog.modules.values():
+        for d in ast.walk(m.tree):
+            if isinstance(d, ast.Dict):
+                ks = [k.value for k in d.keys if isinstance(k, ast.Constant)
+                      and isinstance(k.value, str)]
+                if 'description' in ks:
+                    out |= set(ks)
+        funcs = []
+        for c in m.classes.values():
+            funcs += list(c.methods.values())
+        funcs += list(m.funcs.values())
+        for f in funcs:
+            defs = None
+            for n in walk(f.node, nested=True):
+                tg = []
+                if isinstance(n, ast.Assign):
+                    tg = n.targets
+                elif isinstance(n, (ast.AugAssign, ast.AnnAssign)):
+                    tg = [n.target]
+                elif isinstance(n, ast.Call) and isinstance(
+                        n.func, ast.Attribute) and n.func.attr in (
+                            'setdefault', 'update'):
+                    tg = [n]
+                for t in tg:
+                    keys, cont = [], None
+                    if isinstance(t, ast.Call) and t.func.attr == 'update':
+                        cont = t.func.value
+                        for a in t.args:
+                            if isinstance(a, ast.Dict):
+                                keys += [k.value for k in a.keys
+                                         if isinstance(k, ast.Constant) and
+                                         isinstance(k.value, str)]
+                        keys += [k.arg for k in t.keywords if k.arg]
+                    else:
+                        k, cont = _const_key_of(prog, m, t)
+                        keys = [k] if k is not None else []
+                    if not keys:
+                        continue
+                    if defs is None:
+                        defs = _name_defs(f.node)
+                    root, pre = access_path(prog, f, cont, defs)
+                    if 'description' in pre:
+                        continue
+                    out |= set(keys)
+    return out
+
+
+def _reads_of(prog, f):
+    """[(node, key, root name, container path)] of the constant-key reads of
+    function f whose access chain starts at a name"""
+    defs = _name_defs(f.node)
+    reads = []
+    for x in walk(f.node, nested=True):
+        if isinstance(x, ast.Subscript) and not isinstance(x.ctx, ast.Load):
+            continue
+        k, cont = _const_key_of(prog, f.module, x)
+        if k is None or (isinstance(x, ast.Call) and
+                         x.func.attr == 'setdefault'):
+            continue
+        root, pre = access_path(prog, f, cont, defs)
+        if root is not None:
+            reads.append((x, k, root, tuple(pre)))
+    return reads
+
+
+def r11_15(prog, rep, rid='R11.15'):
+    rep.rule(rid, 'stagers: an attribute of TaskDescription which no code '
+             'stores on a task dict (stage_on_error, ..) is read from the '
+             "task's 'description' entry, not from the task dict itself",
+             minimum=1)
+    desc_only = description_keys(prog) - task_level_keys(prog)
+    rep.stat('R11.15 description-only keys', len(desc_only))
+    if 'stage_on_error' not in desc_only:
+        raise AnalysisError('UNRECOGNISED-IDIOM R11.15: stage_on_error is not '
+                            'a description-only key any more')
+    n = 0
+    for s in stagers(prog):
+        K = s.cls
+        reads = {name: _reads_of(prog, K.methods[name]) for name in K.methods}
+
+        def holders(f, root, pre, depth=0):
+            """[(function, root, path)]: the objects the container `root` +
+            `pre` of a read in f may be - f's own name, or (root is a
+            parameter) what the callers in the class pass for it"""
+            out = [(f, root, pre)]
+            ps = [p for p in f.params if p not in ('self', 'cls')]
+            if root not in ps or depth > 2:
+                return out
+            for cname in sorted(K.methods):
+                caller = K.methods[cname]
+                cdefs = None
+                for c in calls_in(caller.node, nested=True):
+                    if call_name(c) != 'self.' + f.name:
+                        continue
+                    a = kwarg(c, root, ps.index(root))
+                    if a is None:
+                        continue
+                    if cdefs is None:
+                        cdefs = _name_defs(caller.node)
+                    r2, p2 = access_path(prog, caller, a, cdefs)
+                    if r2 is not None:
+                        out += holders(caller, r2, tuple(p2) + pre, depth + 1)
+            return out
+
+        for name in sorted(K.methods):
+            f = K.methods[name]
+            for x, k, root, pre in reads[name]:
+                if k not in desc_only:
+                    continue
+                n += 1
+                rep.saw(f)
+                hs = holders(f, root, pre)
+                if any(p and p[-1] == 'description' for _, _, p in hs):
+                    rep.ok(rid, f, "%s stager: `%s` is read from the task's "
+                           'description' % (s.label, k), f.loc(x))
+                    continue
+                # the container is a task dict if the same object is asked for
+                # its 'description' as well
+                hit = None
+                for hf, hr, hp in hs:
+                    if any(r2 == hr and (p2[:len(hp) + 1] == hp +
+                                         ('description',) or
+                                         (p2 == hp and k2 == 'description'))
+                           for _, k2, r2, p2 in reads[hf.name]):
+                        hit = (hf, hr)
+                if hit is None:
+                    rep.ok(rid, f, '%s stager: `%s` is read from an object '
+                           'which is not a task dict (it is never asked for '
+                           "its 'description')" % (s.label, k), f.loc(x))
+                    continue
+                rep.bad(rid, f, 'description key:%s' % k,
+                        "%s stager (%s): `%s` reads `%s` from the task dict, "
+                        "but `%s` is an attribute of the task *description* "
+                        "(TaskDescription schema) which no code stores on the "
+                        "task dict: the lookup yields the default for every "
+                        "task, whatever the application requested; %s reads "
+                        "other attributes from `%s['description']`"
+                        % (s.label, f.qual, short(x, 50), k, k, hit[0].qual,
+                           hit[1]),
+                        f.loc(x),
+                        history=KEY_HISTORY.get(k, 'a task whose description '
+                        'sets `%s`: the stager behaves as if it was not set'
+                        % k))
+    if not n:
+        raise AnalysisError('UNRECOGNISED-IDIOM R11.15: the stagers read no '
+                            'description-only attribute (recogniser blind?)')
+
+
+def r11_16(prog, rep, rid='R11.16'):
+    """R05.4 of C05 under an id of this property, plus: no handler of the
+    per-task worker hands the exception on (a `raise` on a normal path out of
+    the handler ends the loop over the tasks just like a missing handler)"""
+    from . import c05
+    c05.r05_4(prog, rep, rid=rid)
+    for anchor in c05.STAGERS:
+        K = prog.cls(*anchor)
+        for mname in ('work', '_work'):
+            f = K.methods.get(mname)
+            if f is None:
+                continue
+            for g, node, call, hs in c05.per_task_handlers(prog, f):
+                label = '%s::%s.%s' % (anchor[0].rsplit('/', 1)[0], K.name,
+                                       mname)
+                body = g.loop_body[node.loops[-1]]
+                for h in hs:
+                    if h.kind != 'handler':
+                        continue
+                    region = g.reachable(h.id, labels={'next', 'T', 'F',
+                                                       'iter', 'done'},
+                                         no_back=True) & body
+                    again = [x for x in region if g.nodes[x].kind == 'stmt' and
+                             isinstance(g.nodes[x].ast, ast.Raise)]
+                    # (a raise under a test on the type of the exception may
+                    # just spell a narrower / wider `except`: not decided)
+                    again = [x for x in again if not any(
+                        t in region and any(
+                            isinstance(c, ast.Call) and
+                            dotted(c.func) in ('isinstance', 'type',
+                                               'issubclass')
+                            for c in walk(g.nodes[t].ast))
+                        for t, _lab in guards(g, x))]
+                    rep.check(not again, rid, f, '%s: the handler `%s` of the '
+                              'per-task worker does not raise'
+                              % (label, short(h.ast, 30) if h.ast is not None
+                                 else 'except'),
+                              construct='%s:reraise' % label,
+                              message='%s: a handler around `%s` raises (again): '
+                              'the exception of one task leaves the loop over '
+                              'the tasks, the tasks after it are not staged and '
+                              'the whole bulk is failed' % (label,
+                                                            short(call, 50)),
+                              loc=f.loc(g.nodes[again[0]].ast) if again
+                              else f.loc(call),
+                              history='a bulk of three tasks, the first names '
+                              'a missing source: all three end FAILED')
+
+
+KEY_HISTORY = {
+    'stage_on_error': 'a task with stage_on_error=True and output_staging '
+        'directives which exits non-zero: the agent output stager skips the '
+        'directives although staging on error was requested',
+}
+
+
 def run(prog, rep, tier):
     rep.decided = ('over the finite domain of the six action constants: every '
         'action admitted by a stager\'s intake filter reaches a helper/tar '
@@ -4324,11 +4857,19 @@ def run(prog, rep, tier):
         'complete_url extends the URL of a context entry by the path '
         'component of its parsed argument; the directory a backend '
         'operation makes in front of its effect is a parent of the '
-        'directive\'s target, never the target itself.')
+        'directive\'s target, never the target itself; the skip test of the '
+        'output stagers is evaluated for given values of target_state / '
+        'stage_on_error also when it is no plain comparison (`(x or DONE) '
+        '!= DONE`), goes through a local computed from them or through a '
+        'one-line helper; an attribute which only the task description '
+        'carries (stage_on_error) is read from the description, not from '
+        'the task dict next to it; the per-task worker of each stager runs '
+        'under a catch-all handler inside the loop over the tasks which '
+        'records the error on that task, fails that task and does not '
+        'raise (R05.4 of C05 re-evaluated).')
     rep.undecided = ('file contents and remote transfers; that the backend '
         'operations do what their names say (cp/mv/ln semantics, SAGA); '
-        'that the exception which leaves the per-task handler fails that '
-        'task only is decided by R05.4 (C05); exceptions swallowed inside '
+        'exceptions swallowed inside '
         'StagingHelper or its backends; retry loops and failures which are '
         'noted and raised later stop the analysis; exit codes of call-outs '
         'outside of the staging helper (the bulk mkdir of the client input '
@@ -4376,6 +4917,12 @@ def run(prog, rep, tier):
     rep.attempt(r11_12, prog, rep)
     rep.attempt(r11_13, prog, rep)
     rep.attempt(r11_14, prog, rep)
+    rep.attempt(r11_15, prog, rep)
+    # "a directive that cannot be carried out fails that task only": the
+    # per-task isolation rule of C05 (catch-all handler around the per-task
+    # worker inside the loop, which records the error on that task and hands
+    # that task on as FAILED), re-evaluated here for the four stagers
+    rep.attempt(r11_16, prog, rep)
     if tier == 'thorough':
         r11_4s(prog, rep)
         r11_6b(prog, rep, rid='R11.6s', sweep=True)
@@ -5339,4 +5886,86 @@ SILENT += [
              "        self.mkdir(os.path.dirname(os.path.dirname(tgt)), flags)\n"
              "        self.mkdir(os.path.dirname(tgt), flags)\n"
              "        shutil.move(src, tgt)\n")]),
+]
+
+
+# ---- round 5 (C11-h4, C11-h5, C05-r10): per-task isolation re-evaluated
+# (R11.16 = R05.4 of C05), description-only keys (R11.15), skip test which is
+# no plain comparison (R11.7 evaluates `(x or DONE) != DONE`)
+_SOE      = "                        and not task['description'].get('stage_on_error'):\n"
+_AO_SKIP  = ("                if task['target_state'] != rps.DONE \\\n" + _SOE)
+_AI_TRY   = "                self._handle_task_staging(task, actionables)\n\n            except Exception as e:\n"
+_AI_HND   = ("            except Exception as e:\n"
+             "                self._log.exception('staging error')\n"
+             "                task['exception']        = repr(e)\n"
+             "                task['exception_detail'] = '\\n'.join(ru.get_exception_trace())\n")
+_TI_TRY   = "                    self._advance_tasks([task], pid)\n\n                except Exception as e:\n"
+_TO_SKIP  = ("            target_state = task.get('target_state')\n"
+             "            if target_state and target_state != rps.DONE:\n")
+_AO_DEFW  = "    # --------------------------------------------------------------------------\n    #\n    def work(self, tasks):\n\n        self.advance(tasks, rps.AGENT_STAGING_OUTPUT, publish=True, push=False)\n"
+
+MUTATIONS += [
+    dict(name='R11.16 agent input stager: handler narrowed to OSError / IOError (seed C11-h4)', rules=('R11.16',), edits=[
+        (_AI, _AI_TRY, "                self._handle_task_staging(task, actionables)\n\n            except (OSError, IOError) as e:\n")]),
+    dict(name='R11.16 agent output stager: handler of the staging loop narrowed to OSError', rules=('R11.16',), edits=[
+        (_AO, _AI_TRY, "                self._handle_task_staging(task, actionables)\n\n            except OSError as e:\n")]),
+    dict(name='R11.16 client input stager: handler only for ValueError and RuntimeError', rules=('R11.16',), edits=[
+        (_TI, _TI_TRY, "                    self._advance_tasks([task], pid)\n\n                except (ValueError, RuntimeError) as e:\n")]),
+    dict(name='R11.16 agent input stager: handler re-raises what is no OSError', rules=('R11.16',), edits=[
+        (_AI, _AI_TRY, "                self._handle_task_staging(task, actionables)\n\n            except OSError as e:\n"),
+        (_AI, "                self.advance(task, rps.FAILED)\n\n\n    # ----", "                self.advance(task, rps.FAILED)\n\n            except Exception:\n                raise\n\n\n    # ----")]),
+    dict(name='R11.15 stage_on_error read from the task dict (seed C11-h5)', rules=('R11.15',), edits=[
+        (_AO, _SOE, "                        and not task.get('stage_on_error'):\n")]),
+    dict(name='R11.15 stage_on_error hoisted into a flag read from the task dict by subscript', rules=('R11.15',), edits=[
+        (_AO, _AO_SKIP, "                on_error = task['stage_on_error'] if 'stage_on_error' in task else False\n                if task['target_state'] != rps.DONE \\\n                        and not on_error:\n")]),
+    dict(name='R11.15 stage_on_error read through an alias of the task dict', rules=('R11.15',), edits=[
+        (_AO, _AO_SKIP, "                t = task\n                if t['target_state'] != rps.DONE \\\n                        and not t.get('stage_on_error', False):\n")]),
+    dict(name='R11.15 extracted helper is handed the task dict and reads the flag from it', rules=('R11.15',), edits=[
+        (_AO, _SOE, "                        and not self._stage_on_error(task):\n"),
+        (_AO, _AO_DEFW, "    # --------------------------------------------------------------------------\n    #\n    def _stage_on_error(self, thing):\n\n        return bool(thing.get('stage_on_error'))\n\n\n" + _AO_DEFW)]),
+    dict(name='R11.7 client output skip test (C05-r10 form) skips the DONE tasks', rules=('R11.7',), edits=[
+        (_TO, _TO_SKIP, "            if (task.get('target_state') or rps.DONE) == rps.DONE:\n")]),
+]
+
+SILENT += [
+    dict(name='isolation site: exception variable renamed, record statements reordered', edits=[
+        (_AI, _AI_HND,
+             "            except Exception as exc:\n"
+             "                task['exception_detail'] = '\\n'.join(ru.get_exception_trace())\n"
+             "                task['exception']        = repr(exc)\n"
+             "                self._log.exception('staging error')\n")]),
+    dict(name='isolation site: bare except with the error from sys.exc_info', edits=[
+        (_AI, _AI_HND,
+             "            except:                                    # noqa\n"
+             "                import sys\n"
+             "                e = sys.exc_info()[1]\n"
+             "                self._log.exception('staging error')\n"
+             "                task['exception']        = repr(e)\n"
+             "                task['exception_detail'] = '\\n'.join(ru.get_exception_trace())\n")]),
+    dict(name='isolation site: OSError handled first, everything else by the catch-all', edits=[
+        (_AI, _AI_HND,
+             "            except OSError as e:\n"
+             "                self._log.exception('staging error (I/O)')\n"
+             "                task['exception']        = repr(e)\n"
+             "                task['exception_detail'] = '\\n'.join(ru.get_exception_trace())\n"
+             "                self.advance(task, rps.FAILED)\n\n" + _AI_HND)]),
+    dict(name='description site: description hoisted into a local', edits=[
+        (_AO, _AO_SKIP, "                td = task['description']\n                if task['target_state'] != rps.DONE \\\n                        and not td.get('stage_on_error'):\n")]),
+    dict(name='description site: description read with .get() and a default', edits=[
+        (_AO, _SOE, "                        and not task.get('description', {}).get('stage_on_error', False):\n")]),
+    dict(name='description site: flag hoisted, skip in nested if form', edits=[
+        (_AO, _AO_SKIP, "                on_error = bool(task['description'].get('stage_on_error'))\n                if task['target_state'] != rps.DONE and not on_error:\n")]),
+    dict(name='description site: flag from an extracted helper which is handed the task', edits=[
+        (_AO, _SOE, "                        and not self._stage_on_error(task):\n"),
+        (_AO, _AO_DEFW, "    # --------------------------------------------------------------------------\n    #\n    def _stage_on_error(self, task):\n\n        return bool(task['description'].get('stage_on_error'))\n\n\n" + _AO_DEFW)]),
+    dict(name='description site: flag from an extracted helper which is handed the description', edits=[
+        (_AO, _SOE, "                        and not self._stage_on_error(task['description']):\n"),
+        (_AO, _AO_DEFW, "    # --------------------------------------------------------------------------\n    #\n    def _stage_on_error(self, descr):\n\n        return bool(descr.get('stage_on_error'))\n\n\n" + _AO_DEFW)]),
+    dict(name='skip site: client output test as (x or DONE) != DONE (C05-r10 form)', edits=[
+        (_TO, _TO_SKIP, "            if (task.get('target_state') or rps.DONE) != rps.DONE:\n")]),
+    dict(name='skip site: client output test as a conditional expression through a local', edits=[
+        (_TO, _TO_SKIP, "            target_state = task.get('target_state')\n            skip = (target_state != rps.DONE) if target_state else False\n            if skip:\n")]),
+    dict(name='skip site: client output directives collected by a comprehension (C05-r10 form)', edits=[
+        (_TO, "            actionables = list()\n            for sd in task['description'].get('output_staging', []):\n\n                if sd['action'] == rpc.TRANSFER:\n                    actionables.append(sd)\n",
+              "            actionables = [sd for sd\n                              in task['description'].get('output_staging', [])\n                              if sd['action'] == rpc.TRANSFER]\n")]),
 ]
